@@ -54,11 +54,15 @@ func renderCall(c Call) string {
 	return c.F + args
 }
 
+// statements without any invocation; some mention the evidence patterns in a comment or a string only
 var noiseStmts = []string{
 	`int n%d = %d;`,
 	`String s%d = "v" + %d;`,
 	`boolean b%d = %d > 1;`,
 	`long t%d = %dL * 2;`,
+	`// System.out.println(%d); Thread.sleep(%d);`,
+	`String q%d = "assertEquals(%d, 1); System.out.println(1)";`,
+	`/* assertTrue(ok%d); Thread.sleep(%d); */`,
 }
 
 // renderFile returns the Java text of one class and the facts about what was rendered where.
@@ -79,8 +83,14 @@ func renderFile(f File, style int) (string, FileFacts) {
 	if len(f.Imports) > 0 {
 		w.ln("")
 	}
-	brace := " {"
-	w.ln("public class " + f.Cls + brace)
+	for _, a := range f.ClassAnnos {
+		t := "@" + a.Name
+		if a.Arg != "" {
+			t += "(" + a.Arg + ")"
+		}
+		w.ln(t)
+	}
+	w.ln("public class " + f.Cls + " {")
 	for _, fd := range f.Fields {
 		w.ln("    " + fd + ";")
 	}
@@ -114,6 +124,8 @@ func renderFile(f File, style int) (string, FileFacts) {
 		}
 		if !isTest && len(m.Annos) == 0 {
 			mods = []string{"private ", "public ", "", "protected ", "private static "}[pick(style, ms, 3, 5)]
+		} else if isTest {
+			mods = []string{"public ", "public ", "public ", "", "public final "}[pick(style, ms, 3, 5)]
 		}
 		throws := []string{"", " throws Exception", " throws Throwable", ""}[pick(style, ms, 4, 4)]
 		sig := mods + "void " + m.Name + "()" + throws
